@@ -1,7 +1,14 @@
 #include "life/c09.h"
 namespace c09 {
 void exec_commutators(int shape, int form, unsigned G, Setup& S) {
-  if (shape == COMM) stmt_g(form, G, S, squids::iCommutator(*S.pa, *S.pb));
-  else stmt_g(form, G, S, squids::ACommutator(*S.pa, *S.pb));
+  using squids::iCommutator; using squids::ACommutator;
+  switch (shape) {
+    case COMM: stmt_g(form, G, S, iCommutator(*S.pa, *S.pb)); break;
+    case COMM_RL: stmt_g(form, G, S, iCommutator(std::move(*S.pa), *S.pb)); break;
+    case COMM_LR: stmt_g(form, G, S, iCommutator(*S.pa, std::move(*S.pb))); break;
+    case ACOMM: stmt_g(form, G, S, ACommutator(*S.pa, *S.pb)); break;
+    case ACOMM_RL: stmt_g(form, G, S, ACommutator(std::move(*S.pa), *S.pb)); break;
+    default: stmt_g(form, G, S, ACommutator(*S.pa, std::move(*S.pb)));
+  }
 }
 }
